@@ -67,12 +67,24 @@ struct Ledger {
     // further case parameter and a serialised case replays with the same flavour.
     explicit Ledger(size_t bs) : blocksize(bs) {
         ba.blocksize = bs; ba.driver = this; ba.free = &Ledger::free_cb;
+#ifdef VP_STDHEAP
+        // third flavour (targets built with -DVP_STDHEAP and allocator_ledger.o): the library's own heap allocator, exactly what
+        // MAKE_STDHEAD_BLOCKALLOC(bs) / rp_default_allocator consist of; its malloc()/free() calls arrive in vp_hmalloc()/vp_hfree() below
+        ba.type = UFW_ALLOC_GENERIC; ba.driver = NULL; ba.alloc.generic = ufw_malloc; ba.free = ufw_mfree; prev = current(); current() = this;
+        return;
+#endif
         if (bs & 1) { ba.type = UFW_ALLOC_SLAB; ba.alloc.slab = &Ledger::slab_cb; }
         else { ba.type = UFW_ALLOC_GENERIC; ba.alloc.generic = &Ledger::alloc_cb; }
     }
     static int slab_cb(void *d, void **m) { return alloc_cb(d, m, ((Ledger *)d)->blocksize); }
     Ledger(const Ledger &) = delete;
-    ~Ledger() { for (void *p : live) free(p); }
+    ~Ledger() { for (void *p : live) free(p);
+#ifdef VP_STDHEAP
+        current() = prev;
+#endif
+    }
+    Ledger *prev = nullptr;
+    static Ledger *&current() { static Ledger *c = nullptr; return c; }
     static int alloc_cb(void *d, void **m, size_t n) {
         Ledger *l = (Ledger *)d;
         size_t idx = l->allocs++;
@@ -92,6 +104,25 @@ struct Ledger {
     }
     size_t outstanding() const { return live.size(); }
 };
+
+#ifdef VP_STDHEAP
+// the C library heap as the library's allocator sees it. A successful malloc() may leave any value in errno (glibc does when it falls back from
+// brk to mmap: the block is good, errno is ENOMEM): every other successful call does so here.
+extern "C" __attribute__((used)) void *vp_hmalloc(size_t n) {
+    Ledger *l = Ledger::current();
+    if (!l) return malloc(n);
+    void *m = nullptr;
+    int rc = Ledger::alloc_cb(l, &m, n);
+    if (rc == 0 && (l->allocs & 1)) errno = ENOMEM;
+    if (rc != 0) errno = ENOMEM;
+    return m;
+}
+extern "C" __attribute__((used)) void vp_hfree(void *m) {
+    Ledger *l = Ledger::current();
+    if (!l) { free(m); return; }
+    Ledger::free_cb(l, m);
+}
+#endif
 
 // ---- a protocol instance over scripted endpoints
 struct Session {
